@@ -27,7 +27,7 @@ Inductive eobs :=
 | Appended (n : nat) (topic payload : string) (qos : Z) (retain : bool)
 | AppendFailed (n : nat)
 | Call (src dst : nat) (ok : bool)
-| Listed (n : nat) (sess : list smeta) (subs : list sub) (reg : list string).
+| Listed (n : nat) (sess : list smeta) (subs : list sub) (reg : list string) (pending : nat).
 
 (* how a script names the delivery an acknowledgement is for: a raw identifier, or the i-th
    distinct delivery on that connection with this topic, payload and QoS *)
@@ -444,7 +444,7 @@ Definition peer_leave (cl : cluster) (o dead : nat) (clk : Z) : cluster * list e
   (setn (fst r) o n3, snd r).
 
 Definition listed (cl : cluster) (i : nat) : eobs :=
-  let n := getn cl i in Listed i (sess_all (n_d n)) (sub_all (n_d n)) (map fst (n_reg n)).
+  let n := getn cl i in Listed i (sess_all (n_d n)) (sub_all (n_d n)) (map fst (n_reg n)) (length (n_acks n)).
 
 (** * one script step, run to quiescence *)
 Definition step_raw (seen : seen_t) (cl : cluster) (o : eop) : cluster * list eobs :=
